@@ -238,9 +238,12 @@ pub fn check_c18(call: Call, prev: &PrevRes, res: &TxRes, parsed: Option<&Parsed
 }
 
 /// C11 step check for the first fragment.
-pub fn check_c11_first(res: &TxRes, parsed: &Parsed, fid: u8, buf_len: usize, has_ext: bool) -> Option<Violation> {
+pub fn check_c11_first(res: &TxRes, parsed: &Parsed, fid: u8, buf_len: usize, has_ext: bool, pdu: &[u8], after: &[u8]) -> Option<Violation> {
     if let TxRes::Frag(_, ctx) = res {
         let regime = size_regime(buf_len, 0);
+        if parsed.kind == Kind::First && parsed.payload.end <= after.len() && parsed.payload.len() <= pdu.len() && after[parsed.payload.clone()] != pdu[..parsed.payload.len()] {
+            return Some(Violation::new("C11", "C11.payload_not_the_next_slice", format!("first:{}:{}", if has_ext { "encap_ext" } else { "encap" }, regime), format!("the first fragment's {} payload bytes are not pdu[..{}]", parsed.payload.len(), parsed.payload.len())));
+        }
         if ctx.len_pdu_frag() as usize != parsed.payload.len() {
             return Some(Violation::new(
                 "C11",
@@ -269,6 +272,10 @@ pub fn check_c11_cont(pdu: &[u8], ctx: &ContextFrag, buf_len: usize, res: &TxRes
         TxRes::Err(EncapError::ErrorSizeBuffer) if buf_len >= 7 => {
             Some(Violation::new("C11", "C11.rejects_useful_buffer", format!("{}:{}", regime, rem), format!("buffer of {} bytes rejected with {} bytes remaining", buf_len, remaining)))
         }
+        // with 7 bytes the end packet of an exhausted PDU fits, and so does a fragment with one payload byte: for a
+        // context inside a PDU of the quantified domain no other refusal is compatible with "finishes within
+        // (remaining + 1) calls"
+        TxRes::Err(e) if buf_len >= 7 && pdu.len() <= 65535 => Some(Violation::new("C11", "C11.rejects_useful_buffer", format!("{}:{}:{:?}", regime, rem, e), format!("buffer of {} bytes refused with {:?}, {} bytes remaining", buf_len, e, remaining))),
         TxRes::Err(_) => None,
         TxRes::Panic(..) => None,
         TxRes::Complete(n) => {
@@ -278,6 +285,9 @@ pub fn check_c11_cont(pdu: &[u8], ctx: &ContextFrag, buf_len: usize, res: &TxRes
             }
             if p.payload.len() != remaining {
                 return Some(Violation::new("C11", "C11.end_payload", format!("{}:{}", regime, rem), format!("end packet carries {} bytes, {} remained", p.payload.len(), remaining)));
+            }
+            if p.payload.end <= after.len() && after[p.payload.clone()] != pdu[off..] {
+                return Some(Violation::new("C11", "C11.payload_not_the_next_slice", format!("end:{}", regime), format!("the end packet's {} payload bytes are not pdu[{}..]", remaining, off)));
             }
             if *n >= 4 && after[n - 4..*n] != ctx.crc().to_be_bytes() {
                 return Some(Violation::new("C11", "C11.end_crc", format!("{}", regime), format!("trailer {} != context crc {:08x}", wire::hex(&after[n - 4..*n]), ctx.crc())));
@@ -298,6 +308,9 @@ pub fn check_c11_cont(pdu: &[u8], ctx: &ContextFrag, buf_len: usize, res: &TxRes
             }
             if k > remaining {
                 return Some(Violation::new("C11", "C11.overrun", regime.to_string(), format!("{} bytes written, {} remained", k, remaining)));
+            }
+            if p.payload.end <= after.len() && after[p.payload.clone()] != pdu[off..off + k] {
+                return Some(Violation::new("C11", "C11.payload_not_the_next_slice", format!("intermediate:{}", regime), format!("the fragment's {} payload bytes are not pdu[{}..{}]", k, off, off + k)));
             }
             None
         }
